@@ -21,7 +21,7 @@ RULE = (
     "(screen hash, replacement kind, model, scorer, n_chunks, batch); non-trivial = >=1 masked row and >=1 observed row"
 )
 ASSUMPTIONS = ["observed values exactly 0 or 1 are outside the interaction model's transform (logit gives +-inf) and are not generated for it", "both members of a pair use the same seed and the same global numpy seed so that only masked values differ"]
-REQUIRED = {"training_sets_with_values_above_one": {"quick": 40, "thorough": 500}, "two_batch_histories": {"quick": 100, "thorough": 1200}, "cli_pairs": {"quick": 1, "thorough": 40}, "pairs_compared": {"quick": 250, "thorough": 3000}, "artefacts_compared": {"quick": 1200, "thorough": 15000}, "training_set_checks": {"quick": 250, "thorough": 3000}, "refusals_checked": {"quick": 2000, "thorough": 25000}}
+REQUIRED = {"training_sets_with_values_above_one": {"quick": 40, "thorough": 500}, "two_batch_histories": {"quick": 100, "thorough": 1200}, "cli_pairs": {"quick": 6, "thorough": 40}, "cli_replacement_nan": {"quick": 1, "thorough": 6}, "pairs_compared": {"quick": 250, "thorough": 3000}, "artefacts_compared": {"quick": 1200, "thorough": 15000}, "training_set_checks": {"quick": 250, "thorough": 3000}, "refusals_checked": {"quick": 2000, "thorough": 25000}}
 N_PAIRS = {"quick": 640, "thorough": 6400}
 
 
@@ -342,8 +342,8 @@ def run_shard(rec, tier, seed, shard, nshards):
                 except Exception as e:
                     rec.violation("C04/%s/wrong-exception-on-%s" % (m2, what), "%s.add_observations raised %r instead of ValueError" % (m2, e), w)
 
-    if tier == "thorough" or shard == 0:
-        cli_pairs(rec, rng, shard, n=6 if tier == "thorough" else 2)
+    # every replacement kind goes through the command-line entry points in every run (kind by shard and position)
+    cli_pairs(rec, rng, shard, n=6 if tier == "thorough" else 1, seed=seed)
 
 
 def numeric_state(obj):
@@ -405,7 +405,7 @@ def two_batches(rec, rng, cls, mname, screen, w):
     rec.check(same and int(a.n_obs()) == int(b.n_obs()), "C04/%s/second-batch-not-used-like-the-first" % mname, "%s: a model that received its observations in two batches (steps in between) continues differently from a fresh model holding the same %d observations, the same sampler state and the same generator" % (mname, int(b.n_obs())), dict(w, first_batch_rows=int(first.sum()), second_batch_rows=int((~first).sum())))
 
 
-def cli_pairs(rec, rng, shard, n=6):
+def cli_pairs(rec, rng, shard, n=6, seed=0):
     """the four CLI mains in-process on files of a pair of screens"""
     from batchie.data import Screen
     from batchie.core import BayesianModel
@@ -414,11 +414,16 @@ def cli_pairs(rec, rng, shard, n=6):
 
     with kit.scratch_dir("vf-c04-") as tmp:
         for ci in range(n):
-            kw = gen_pair_screen(rng, for_interaction=False)
+            kw = None
+            for _ in range(8):
+                kw = gen_pair_screen(rng, for_interaction=False)
+                if kw is not None:
+                    break
             if kw is None:
                 continue
-            kind = REPLACEMENTS[int(rng.integers(len(REPLACEMENTS)))]
+            kind = REPLACEMENTS[(shard + ci + seed) % len(REPLACEMENTS)]
             kwB = dict(kw, observations=replace_masked(rng, kw["observations"], kw["observation_mask"], kind))
+            rec.count("cli_replacement_" + kind)
             outs = {}
             handed = {}
             for tag, k_ in (("A", kw), ("B", kwB)):
